@@ -155,6 +155,7 @@ func checkC14(w *World, r *Report) {
 	r.Explanation = "Decides the length-independence clause of C14: (R14.1) in every function reachable from parse or render roots, a branch on a size value (len/cap of a string or slice, a size/capacity parameter, arithmetic on them) against a constant >= 16 never decides which token-, node- or output-producing function runs — the two exclusive successor regions call the same set of such functions, so a size class can select capacities and fast paths of allocation only; (R14.2) every re-allocation of a buffer in a token/output producing function copies the old content. (R14.3) no string/slice header is manufactured over live buffer memory; (R14.4) template data is never cut at a constant position >= 16 (scan windows, chunks). Not decided: that the single tokenizer treats a tag identically at every byte offset (value-level arithmetic). R14.4 also forbids constant read limits (io.LimitReader, io.CopyN, io.LimitedReader, a single Read into a constant buffer) on the way from a loader to the parser; (R14.5) no loop that walks a []Node or []Token compares its index with a constant >= 1."
 	r.Explanation += " Rules added in later rounds: (R14.6) results do not depend on size classes; (R14.7) chain walks are not bounded by constants. (R14.8) Parse succeeds only behind the parser. (R14.9) parse trees are not entered into tables."
 	r.Explanation += " Round 9: (R14.10) stored trees come from Parse; (R14.11) sizes and positions are not narrowed below 32 bits."
+	r.Explanation += " Round 10: (R14.12) token lists are not filtered by what the tokens are."
 	r.RuleText = "obligation = one size-threshold branch (or one buffer re-allocation); non-trivial = all (each needs the exclusive regions and their callee sets computed)"
 	r.Trusted = []string{"call graph over-approximation", "classification of 'semantic' functions by role: appends to []Token, returns Node/[]Token, writes to io.Writer, or calls such a function"}
 
